@@ -2,22 +2,23 @@
 from props._common import *  # noqa
 
 ID = 'C13'
-LEVEL = 'other'
-MANIFEST_LEVEL = 'other'
-FUNCTIONS = HUB
+LEVEL = 'proof'
+FUNCTIONS = HUB + [M + 'extended_language_filter']
+SHARDS = {'match_selectors': 16, 'extended_language_filter': 8}
+TIMEOUT_MS = {'quick': 30000, 'thorough': 120000}
 
 def _bt_lang_filter(ctx):
     from pyvc import bounded_text
     return bounded_text.lang_filter(ctx)
 
 BOUNDED = [_bt_lang_filter, hub_bounded('C13-lang-hub', ['lang', 'basic', 'attrs', 'plain', 'ns', 'svghtml'], ['lang'])]
-TRUSTED = [A_PY, A_BS4, 'extended_language_filter and match_lang are not yet under discharged contracts: bounded against RFC 4647 3.3.2 / the inherited-language reference']
+TRUSTED = [A_PY, A_BS4, A_SMT, 'str.lower / str.split / re.sub are uninterpreted (the proof is about the matching loop on the split subtag lists); that stripping non-leading wildcards preserves RFC 4647 matching is bounded (exhaustive small scope)', 'match_lang (inherited language, meta fallback) is not yet under a discharged contract: bounded']
 ASSUMPTIONS = TRUSTED
-EXPLANATION = ('Bounded, exhaustive over all ranges/tags of up to 3 (4) subtags over a 5-symbol alphabet plus "*": extended_language_filter against an RFC 4647 reference; '
+EXPLANATION = ('Proved: the loop of extended_language_filter (incl. its try/except IndexError) equals the recursive transcription of RFC 4647 3.3.2 steps 2-3 on the split subtag lists, for all lists, and terminates. Bounded, exhaustive over all ranges/tags of up to 3 (4) subtags over a 5-symbol alphabet plus "*": extended_language_filter against an RFC 4647 reference; '
                'the inherited language (nearest lang / xml:lang including lang="", meta fallback, iframe boundary) on the corpus. Proved: the hub requires match_lang for every compound.')
 LEVEL_TEXT = EXPLANATION
-TECHNIQUE = 'bounded (exhaustive small scope) evaluation of the RFC 4647 contract on the real function; hub contract proved'
-MUSTFAIL = False
+TECHNIQUE = 'contract-based deductive verification of the filtering loop (VCs from the real AST, z3) + bounded (exhaustive small scope) evaluation for wildcard stripping and the inherited language'
+MUSTFAIL_PER_FN = {'quick': 1, 'thorough': 6}
 
 
 def _bt_value_lists(ctx):
